@@ -202,6 +202,15 @@ def diagnose(spec, r, depth=0):
                         out.append((f"strict-constraint-violated-next-to-lax/{o}/{name}", {"node": spec, "constraint": name}))
                     return out
                 # no padding of decimal places here: the strict form is evaluated on the output value itself
+            # a strict max_digits is checked by the library on the value with its decimal places completed; a lax
+            # transformation that runs in between (multiple_of, ge/le substitution) can drop the completed places again
+            import decimal
+            if isinstance(r, decimal.Decimal) and "decimal_places" in cons and "max_digits" in cons and "max_digits" not in spec["lax"] \
+                    and not _nonfinite(r):
+                padded = constraints.pad_decimal(r, cons["decimal_places"])
+                if constraints.holds("decimal_places", cons["decimal_places"], r) and constraints.holds("max_digits", cons["max_digits"], padded) is False:
+                    out.append((f"lax-output-fails-strict-max_digits-once-decimal-places-are-completed/{o}/lax:{'+'.join(sorted(spec['lax']))}",
+                                {"node": spec, "constraint": "max_digits"}))
         return out
     try:
         if k in tspec.SEQ_KINDS and isinstance(r, (list, tuple, set, frozenset)):
